@@ -73,7 +73,10 @@ func genC06Concurrent(r *core.Rand, sc *Scenario) *Scenario {
 			var a []B
 			switch r.Intn(16) {
 			case 0, 1, 2, 3:
-				a = bs("expire", k, pick(r, ttls), pick(r, []string{"nx", "xx", "gt", "lt", "NX", "GT"}))
+				a = bs("expire", k, pick(r, ttls))
+				for _, o := range pick(r, [][]string{{"nx"}, {"xx"}, {"gt"}, {"lt"}, {"NX"}, {"GT"}, {"xx", "gt"}, {"xx", "lt"}, {"lt", "xx"}}) {
+					a = append(a, B(o))
+				}
 			case 4, 5:
 				a = bs("expire", k, pick(r, ttls))
 			case 6:
@@ -257,7 +260,11 @@ func (g *lsGen) c06FollowUp(k, typ string) string {
 			g.try(bs("zadd", k, "2", "b"))
 		}
 	case 6:
-		g.try(bs("expire", k, itoa(pick(r, []int{1, 2, 4, 50})), pick(r, []string{"nx", "xx", "gt", "lt", "NX", "GT"})))
+		a := bs("expire", k, itoa(pick(r, []int{1, 2, 4, 50})))
+		for _, o := range pick(r, [][]string{{"nx"}, {"xx"}, {"gt"}, {"lt"}, {"NX"}, {"GT"}, {"xx", "gt"}, {"xx", "lt"}, {"lt", "xx"}, {"GT", "XX"}, {"nx", "gt"}, {"gt", "lt"}}) {
+			a = append(a, B(o))
+		}
+		g.try(a)
 	case 7:
 		g.try(bs("expire", k, itoa(pick(r, []int{2, 7}))))
 	case 8:
